@@ -13,6 +13,8 @@ pub mod c14;
 pub mod c15;
 pub mod c18;
 pub mod env;
+pub mod node;
+pub mod sync;
 pub mod prove;
 pub mod server;
 pub mod simchain;
@@ -317,6 +319,7 @@ pub fn main() {
     let report = match opts.property.as_str() {
         "C01" | "C11" | "C12" => prove::run(&opts, &opts.property.clone()),
         "C03" => c03::run(&opts),
+        "C08" | "C09" => sync::run(&opts, &opts.property.clone()),
         "C07" => c07::run(&opts),
         "C13" => c13::run(&opts),
         "C14" => c14::run(&opts),
